@@ -178,7 +178,25 @@ FOLLOW_FORGET = [{"op": "observe"}, {"op": "push_back", "val": 2}, {"op": "push_
                  {"op": "observe"}]
 
 
-def build(raw, sid, route='back', poison=None, observe=True):
+# provided Iterator methods that take the view by value: L1 knows fold / rfold; the other methods with the same
+# meaning for the contract are variants of those behaviours
+BYVAL_MODES = {'fold': ['fold', 'for_each', 'collect', 'count', 'last'], 'rfold': ['rfold', 'rev_collect']}
+
+
+def byval_variants(raw, tier='thorough'):
+    """which variants of the behaviour to run ([0] unless it ends in a by-value consumption): all methods in the
+    thorough tier; in the quick tier the one L1 transcribes plus one other, rotated over the behaviours"""
+    for e in raw['evs']:
+        if e['op'] == 'v_rest' and e.get('acc'):
+            k = len(BYVAL_MODES[e['acc']])
+            if tier != 'quick':
+                return list(range(k))
+            rot = int(core.sha(json.dumps([[x['op'], x['bs'], x['be']] for x in raw['evs']]), raw['lay']['size'], raw['lay']['n']), 16)
+            return [0, 1 + rot % (k - 1)] if e['acc'] == 'fold' else [rot % k]
+    return [0]
+
+
+def build(raw, sid, route='back', poison=None, observe=True, mode=0):
     """harness scenario for one TLC behaviour"""
     lay = raw['lay']
     n = lay['n']
@@ -195,8 +213,15 @@ def build(raw, sid, route='back', poison=None, observe=True):
             steps.append({"op": "mk", "val": 1})
         if poison:
             steps.append({"op": "poison", "acc": poison})
+    skip_drop = False
     for e in raw['evs']:
+        if skip_drop and e['op'] == 'v_drop':
+            skip_drop = False       # the by-value call drops the view itself (the harness records both events)
+            continue
         steps.append(ev_step(e))
+        if e['op'] == 'v_rest' and e.get('acc'):
+            steps[-1]['acc'] = BYVAL_MODES[e['acc']][mode % len(BYVAL_MODES[e['acc']])]
+            skip_drop = True
         if e['op'] in ('extend', 'from_iter'):
             # what the user's iterator claims through size_hint(): nothing, exact, a lower bound, too generous upper bounds
             # (chosen from the behaviour itself, so that all layout / route / garbage variants of it use the same one)
@@ -219,7 +244,7 @@ def build(raw, sid, route='back', poison=None, observe=True):
             steps.append({"op": "observe"})
     # behaviours that differ only in the physical front position (and in route / garbage) form one group: the same
     # calls on the same logical contents, which must be indistinguishable (C04)
-    grp = core.sha(n, lay['size'], lay.get('src', {}).get('size', 0) if raw['evs'][0]['op'] == 'clone_from' else 0, json.dumps([[e['op'], e['i'], e['j'], e['vals'], e['bs'], e['be'], e.get('fk'), e.get('fn')] for e in raw['evs']]))
+    grp = core.sha(n, lay['size'], mode, lay.get('src', {}).get('size', 0) if raw['evs'][0]['op'] == 'clone_from' else 0, json.dumps([[e['op'], e['i'], e['j'], e['vals'], e['bs'], e['be'], e.get('fk'), e.get('fn')] for e in raw['evs']]))
     return {"id": sid, "n": n, "ty": "t", "tags": sorted(tags), "steps": steps, "first_op": raw['evs'][0]['op'], "grp": grp,
             "pred": {"start": lay['start'], "size": lay['size']}}
 
@@ -237,7 +262,7 @@ def load_raw(path):
 # ------------------------------------------------------------------------------------------------
 # byte-stream I/O scenarios (C14, C16)
 
-def io_layout_steps(n, start, size, fam):
+def io_layout_steps(n, start, size, fam, vals=None):
     """reach (start, size) with stream operations only, never emptying the buffer by a read on the way (an
     implementation that re-centres an emptied buffer still reaches the layout): read() advances the front,
     consume() (a drain) removes without moving it"""
@@ -251,13 +276,24 @@ def io_layout_steps(n, start, size, fam):
             st.append({"op": "write", "vals": [7] * start, "fam": fam})
             st.append({"op": "read", "i": start, "fam": fam})
     if size > 0:
-        st.append({"op": "write", "vals": [k + 1 for k in range(size)], "fam": fam})
+        st.append({"op": "write", "vals": vals if vals is not None else [k + 1 for k in range(size)], "fam": fam})
     return st
 
 
-def io_build(raw, sid, fam='std', poison=None):
+def utf8_fill(size, variant):
+    """contents for read_to_string: two-byte characters, so that the wrap point of a layout falls inside one
+    ('u0': from the first byte, 'u1': after one ASCII byte), or bytes that are not UTF-8 at all ('bad')"""
+    if variant == 'bad':
+        return [0xFF] * size
+    out = [0x61] if (variant == 'u1') else []
+    while len(out) + 2 <= size:
+        out += [0xC3, 0xA9]
+    return out + [0x62] * (size - len(out))
+
+
+def io_build(raw, sid, fam='std', poison=None, fill=None):
     lay = raw['lay']
-    steps = io_layout_steps(lay['n'], lay['start'], lay['size'], fam)
+    steps = io_layout_steps(lay['n'], lay['start'], lay['size'], fam, utf8_fill(lay['size'], fill) if fill else None)
     if poison:
         steps.append({"op": "poison", "acc": poison})
     for e in raw['evs']:
@@ -276,9 +312,15 @@ def io_random(rnd, n, sid, fams, length):
         r = rnd.random()
         if r < 0.35:
             k = rnd.choice([0, 1, 2, n, n + 1, 2 * n + 1, rnd.randint(0, 2 * n + 1)])
-            steps.append({"op": rnd.choice(["write"] * 8 + ["extend_ref", "write_all"]), "vals": [rnd.randint(0, 255) for _ in range(k)], "fam": fam})
-        elif r < 0.6:
+            text = rnd.random() < 0.3       # mostly two-byte characters, so that read_to_string has something valid to split
+            data = (utf8_fill(k, rnd.choice(['u0', 'u1'])) if text else [rnd.randint(0, 255) for _ in range(k)])
+            steps.append({"op": rnd.choice(["write"] * 8 + ["extend_ref", "write_all", "write_vectored", "write_fmt"]), "vals": data,
+                          "i": rnd.randint(0, k), "fam": fam})
+        elif r < 0.5:
             steps.append({"op": rnd.choice(["read", "read", "read_exact"]), "i": rnd.choice([0, 1, 2, n, n + 2, rnd.randint(0, n + 2)]), "fam": fam})
+        elif r < 0.6:
+            op = rnd.choice(["hash", "hash", "read_to_end", "read_to_string", "read_to_string", "read_until", "read_vectored"])
+            steps.append({"op": op, "i": rnd.choice([0xA9, 0x61, rnd.randint(0, 255)]), "vals": [rnd.randint(0, n + 1), rnd.randint(0, n + 1)], "fam": fam})
         elif r < 0.75:
             steps.append({"op": "fill_buf", "fam": fam})
         elif r < 0.92:
@@ -375,7 +417,7 @@ def obs_build(pair, sid, k):
 # model (MaxU = 7, N in {7,6,5,4,3}: position arithmetic really wraps the word there) are mapped,
 # inputs only, onto the real 64-bit capacities usize::MAX, usize::MAX-1, 2^63+1, 2^63, 2^63-1, 2^32+1, ...
 
-Z_FAMILIES = ['single', 'positional', 'bulk', 'access', 'extend', 'drain']
+Z_FAMILIES = ['single', 'positional', 'bulk', 'access', 'extend', 'drain', 'iter']
 Z_MAP = {7: ['max'], 6: ['max-1'], 5: ['p63+1', 'p32+1'], 4: ['p63', 'p32'], 3: ['p63-1', 'p32-1']}
 Z_BASE = {'max': 1 << 30, 'max-1': (1 << 30) - 1, 'p63+1': (1 << 29) + 1, 'p63': 1 << 29, 'p63-1': (1 << 29) - 1,
           'p32+1': (1 << 28) + 1, 'p32': 1 << 28, 'p32-1': (1 << 28) - 1}
@@ -432,7 +474,7 @@ def z_build(raw, sid, ncode):
             s['j'] = z_arg(e['j'], nm, size, ncode)
         elif op in ('extend', 'extend_from_slice'):
             s['i'] = len(e['vals'])
-        elif op == 'drain':
+        elif op in ('drain', 'range', 'range_mut'):
             s['bs'] = [e['bs']['t'], z_arg(e['bs']['x'], nm, size, ncode)] if e['bs']['t'] != 'u' else ['u']
             s['be'] = [e['be']['t'], z_arg(e['be']['x'], nm, size, ncode)] if e['be']['t'] != 'u' else ['u']
         steps.append(s)
